@@ -231,7 +231,7 @@ def independent_reader(ctx, raw, rep, arr, spec, n, meshunit, exp_labels, unit, 
     if d.version == 2 and exp_data is None:
         labs = d.header.get("valuelabels", "").split()
         units = d.header.get("valueunits", "").split()
-        ok = len(labs) == d.dim and len(units) in (1, d.dim)
+        ok = len(labs) == d.dim and (len(units) in (1, d.dim) or (unit is None and not units))
         if ok and nvdim > 1:
             ok = all(a == b or a.endswith("_" + b) for a, b in zip(labs, exp_labels))
         if ok and unit is not None:
@@ -294,6 +294,13 @@ def _try_load(fn):
         return e, None
 
 
+def _open_fds():
+    try:
+        return len(os.listdir("/proc/self/fd"))
+    except OSError:
+        return 0
+
+
 def faults(ctx, tmp):
     rng = ctx.rng
     source = gen.pick(rng, ["library", "library", "writer_v1", "writer_v2"])
@@ -337,6 +344,7 @@ def faults(ctx, tmp):
                 and ig.bits_equal(np.asarray(r.array, float), exp)
                 and np.array_equal(r.mesh.region.pmin, spec.pmin))
 
+    fds0 = _open_fds()
     # ---- truncations (descending, one file shortened step by step)
     if len(raw) <= 4096:
         cuts = range(len(raw) - 1, -1, -1)
@@ -393,6 +401,8 @@ def faults(ctx, tmp):
         ctx.check("C09.fault.checkvalue_wrong_rejected", e is not None, variant=name,
                   note="a field was returned although the check value is wrong", **what)
     ctx.event("fault.checkvalue_wrong", len(wrong))
+    # supporting observer only (never deciding): file handles left open by rejected loads
+    ctx.event("fault.open_fd_growth", max(0, _open_fds() - fds0))
 
 
 # ---------------------------------------------------------------- kind 3: misc
